@@ -28,7 +28,9 @@ GS = [[1, 0, 0], [0, -1, 2], [1, 1, 1]]
 
 def units(tier):
     u = []
-    for gid, sid in [("tric2", "211"), ("cscl", "211"), ("bccI", "111"), ("tet2", "111"), ("hex2", "111")]:
+    # 311: a supercell dimension >= 3 has self-images that do not pair up on the Wigner-Seitz boundary, so the diagonal blocks of
+    # the lattice sum are complex for force constants without permutation symmetry (Hermitisation is then not a no-op there)
+    for gid, sid in [("tric2", "211"), ("cscl", "211"), ("bccI", "111"), ("tet2", "111"), ("hex2", "111"), ("tric2", "311")]:
         u.append(("basic", gid, sid, False))
     u.append(("basic", "tric2", "211", True))
     for gid, sid in [("cscl", "111"), ("tet2", "111"), ("hex2", "111"), ("cscl", "211"), ("bccI", "111")]:
